@@ -6,10 +6,12 @@ Model: `Model/Reservoir.lean` (`Reservoir::push/drain`, `Drain::sample_rate`, `D
 is an input, so "for all choice vectors" is a plain universal quantifier, and the uniformity statement is an exact
 count over the finite product of the ranges the code asks its generator for — no sampling, no floats.
 
-A push overlapping `consume` is outside these theorems (known finding K-C16-straddle, reproduced on the real code
-by the harness with two deterministic schedules).
+Pushes overlapping `consume` are covered by the step machine `Model/ReservoirConc` (theorems `conc_*` below): no panic
+and the length/rate bounds hold under every schedule; a drain whose swap finds no push in flight is exact; the two
+witnesses of known finding K-C16-straddle show that the full statement fails otherwise.
 -/
 import MetricsVerif.Proofs.Reservoir
+import MetricsVerif.Proofs.ReservoirConc
 import MetricsVerif.Proofs.SrcShapes
 import MetricsVerif.Generated.SourceFacts
 
@@ -102,6 +104,80 @@ theorem push_total (r : Res) (v c : Nat) : (r.push v c).panicked = r.panicked :=
 theorem no_panic (cap : Nat) (ops : List Op) :
     (run (ASR.new cap) ops).primary.panicked = false ∧ (run (ASR.new cap) ops).secondary.panicked = false :=
   ⟨(inv_run cap ops).okP, (inv_run cap ops).okS⟩
+
+
+/-! ## pushes concurrent with drains: the step machine `Model/ReservoirConc` (any number of threads, any schedule)
+
+One `cstep` is one grant of the deterministic scheduler: one shared-memory operation of `push` (`use_primary.load`,
+`count.fetch_add`, the slot store) or of `consume` (lock + swap + `count.load`; one slot load; reset + unlock).  The
+harness replays every executed schedule of the real code on this machine (`reservoir crun`). -/
+
+/-- `Reservoir::push` is exactly "claim an index with `fetch_add`, then run the store step with that index": the
+    concurrent machine splits `push` at this point and nowhere else -/
+theorem push_is_claim_then_store (r : Res) (v c : Nat) : r.push v c = (r.claim.1).storeAt r.claim.2 v c :=
+  push_eq_claim_store r v c
+
+/-- **conc_no_panic.** Under every schedule of every set of thread programs (pushes overlapping drains, several
+    pushers, several consumers, any capacity including 0) no push reaches `fastrand(0)`: the replacement step asks for
+    `idx + 1` of the index THIS push claimed, which no reset of `count` by a drain can turn into 0. -/
+theorem conc_no_panic (cap : Nat) (progs : List (List COp)) (sched : List Nat) :
+    (crun (Sys.init cap progs) sched).panicked = false := by
+  have h := (CInv.init cap progs).run sched
+  simp [Sys.panicked, h.okP, h.okS]
+
+/-- **conc_drain_bounds.** Under every schedule, every drain that completes yields exactly `min(count it loaded,
+    capacity)` values — never more than the capacity — and reports that count; so its sample rate is
+    `yielded / count loaded` also when pushes overlap it. -/
+theorem conc_drain_bounds (cap : Nat) (progs : List (List COp)) (sched : List Nat) :
+    ∀ td ∈ (crun (Sys.init cap progs) sched).drains,
+      td.2.len = min td.2.unsampled cap ∧ td.2.values.length = td.2.len ∧ td.2.values.length ≤ cap := by
+  intro td htd
+  have h := ((CInv.init cap progs).run sched).dr td htd
+  exact ⟨h.1, h.2, by omega⟩
+
+/-- **conc_quiescent_drain_exact_partial.** The part of `drain_sound`/`drain_all`/`rate_exact` that survives
+    concurrency: if a consumer takes the lock at a moment when no thread is inside a push on the active side (no
+    thread has loaded `use_primary` and not yet stored) then, WHATEVER is scheduled afterwards — pushes of any number
+    of threads, which all go to the other side, other consumers queueing for the lock — the drain it completes is
+    exactly the sequential drain `consume.2` of the state at the swap (to which `drain_sound`, `drain_all`,
+    `rate_exact` apply), and it is the next drain recorded. -/
+theorem conc_quiescent_drain_exact_partial (s0 : Sys) (t : Nat) (asked : List (Option Nat)) (rest : List COp)
+    (hth : s0.threads[t]? = some { prog := .consume :: rest, pc := .idle, asked := asked })
+    (hfree : s0.locked = false)
+    (hq : ∀ (i : Nat) (th : Thread), s0.threads[i]? = some th →
+      th.midPushOn s0.asr.usePrimary = false ∧ ∀ q u l vs, th.pc ≠ .reading q u l vs)
+    (sched : List Nat) :
+    (crun (cstep s0 t) sched).drains = s0.drains
+    ∨ ∃ tail, (crun (cstep s0 t) sched).drains = s0.drains ++ [(t, s0.asr.consume.2)] ++ tail := by
+  obtain ⟨hq', e⟩ := QInv.start s0 t asked rest hth hfree hq
+  have := hq'.run sched
+  rw [e] at this
+  rw [consume_out]
+  exact this
+
+/-- the full statement is false when a push overlaps the drain (known finding K-C16-straddle), witness 1: the push
+    loaded `use_primary` before the swap and claims its index after the drain's `count.load`; the reset wipes it.
+    All three drains (both sides) are empty and report 0 pushed although `push(7)` completed. -/
+theorem conc_straddle_late_claim_lost :
+    let s := crun (Sys.init 4 [[.push 7 0], [.consume, .consume, .consume]]) [0, 1, 0, 0, 1, 1, 1, 1, 1]
+    s.finished = true ∧ s.drains.map (fun td => (td.2.values, td.2.unsampled)) = [([], 0), ([], 0), ([], 0)] := by
+  decide
+
+/-- … witness 2: the push has claimed slot 0 but not stored yet when the drain reads it: the drain yields the old
+    slot content `0`, which was never pushed, and reports 1 pushed -/
+theorem conc_straddle_stale_yield :
+    let s := crun (Sys.init 4 [[.push 7 0], [.consume]]) [0, 0, 1, 1, 1, 0]
+    s.finished = true ∧ s.drains = [(1, { values := [0], unsampled := 1, len := 1 })] := by
+  decide
+
+/-- a closure that leaks the `Drain` (`mem::forget`) skips the reset: the values come out again two drains later
+    (assumption "the closure drops the Drain" of the sequential theorems is necessary) -/
+theorem forget_breaks_next_drain :
+    let a := run (ASR.new 2) [.push 1 0, .push 2 0]
+    let (a1, d1) := a.consumeForget
+    let (a2, _) := a1.consume
+    d1.values = [1, 2] ∧ a2.consume.2.values = [1, 2] := by
+  decide
 
 /-! ## the code before the repair (`fastrand(idx)`), kept as witnesses of the two defects -/
 
@@ -249,5 +325,30 @@ theorem src_reservoir_orderings :
     allRelease Generated.shape_reservoir_consume "use_primary.store" = true
     ∧ allAcquire Generated.shape_reservoir_consume "use_primary.load" = true
     ∧ allRelease Generated.shape_reservoir_drain_drop "count.store" = true := by decide
+
+/-- what the step machine relies on and no run on x86 can see: `consume` keeps the guard in a NAMED binding (a `_`
+    pattern would release the lock at once); `Drain::drop` stores 0; the index a push works with is the result of
+    its own `fetch_add` and `impl Reservoir` reads `count` in one place only (`drain`), so the replacement step cannot
+    observe a reset; `fastrand` draws from `0..upper`; `sample_rate` divides `len` by `unsampled_len` as `f64` -/
+theorem src_reservoir_guard_and_reset :
+    Generated.reservoir_consume_guard_binding = "_guard"
+    ∧ Generated.reservoir_drop_store_args = "0, Release"
+    ∧ Generated.reservoir_push_idx_source = "self.count.fetch_add(1, Relaxed)"
+    ∧ Generated.reservoir_inner_count_loads = 1
+    ∧ Generated.reservoir_fastrand_range = "0..upper"
+    ∧ Generated.reservoir_sample_rate_body
+        = "{ if self.unsampled_len == self.len { 1.0 } else { self.len as f64 / self.unsampled_len as f64 } }" :=
+  ⟨rfl, rfl, rfl, rfl, rfl, rfl⟩
+
+/-- the DogStatsD wiring of the sampled histogram: `sampling = true` selects the reservoir with the configured size,
+    the flush hands on the drain's own `sample_rate()`, the default size is 1024 -/
+theorem src_dogstatsd_sampled_wiring :
+    Generated.dogstatsd_histogram_new_body
+      = "{ if sampling { AtomicHistogram::Sampled(AtomicSamplingReservoir::new(reservoir_size)) } else { AtomicHistogram::Raw(AtomicBucket::new()) } }"
+    ∧ Generated.dogstatsd_histogram_flush_sampled_rate = "Some(values.sample_rate())"
+    ∧ Generated.dogstatsd_default_reservoir_size = "1024"
+    ∧ Generated.dogstatsd_storage_histogram_body
+      = "{ Arc::new(AtomicHistogram::new(self.histogram_sampling, self.histogram_reservoir_size)) }" :=
+  ⟨rfl, rfl, rfl, rfl⟩
 
 end MetricsVerif.C16
